@@ -56,6 +56,22 @@ def esc_make_extra(ctx, table):
                ops is not None and substchain.altered(ops, ch), ss[0],
                '{!r} ({}) is written unescaped inside a function call'
                .format(ch, why))
+    # GNU Make splits the arguments of $(call ...) at every comma that is not
+    # inside $(...) / ${...} *before* expanding anything: a one-character
+    # reference `$,` does not protect the comma (reader-table audit row
+    # "MK_FUNCARG bare $, is still split"). The replacement must therefore be
+    # a parenthesised or braced reference.
+    for o in (ops or []):
+        if o.kind == 'replace' and o.old == ',':
+            ok = isinstance(o.new, str) and ',' in o.new and (
+                o.new.startswith('$(') and o.new.endswith(')') or
+                o.new.startswith('${') and o.new.endswith('}'))
+            ctx.ob(R, "{}|MK_FUNCARG|','-replacement-protected".format(f.fq),
+                   ok, o.node,
+                   "a comma inside a function argument is written as {!r}: "
+                   "make's argument splitter still sees the bare comma "
+                   "(only $(...)/${{...}} references are skipped), so the "
+                   "argument is cut in two".format(o.new))
     # syntax_string branch of Writer.write honours the embedded syntax
     W = repo.method(E.MAKE_SYN + ':Writer', 'write')
     nested = [c for c in Q.calls(W.node) if unparse(c.func) == 'out.write'
@@ -99,6 +115,38 @@ def esc_make_extra(ctx, table):
                'Variable.use no longer wraps references in quotes')
 
 
+def target_var_scope(ctx):
+    R = 'TARGET-VAR-SCOPE'
+    ctx.rule(R, 'per-target compile/link options are Make target-specific '
+             'variables whose default is the pattern-specific `%: VAR := '
+             '$(GLOBAL_VAR)`: GNU Make hands target-specific variables down '
+             'to prerequisites, the `%:` default stops that inheritance, so '
+             'options of one target never reach another target\'s command '
+             'line')
+    repo = ctx.repo
+    f = repo.func('bfg9000.backends.make.writer:flags_vars')
+    vals = [v for v in Q.local_assignments(f.node, 'flags') if v is not None]
+    ok = len(vals) == 1 and isinstance(vals[0], ast.Call) and unparse(
+        vals[0].func) == 'buildfile.target_variable' and len(
+            vals[0].args) >= 2 and unparse(vals[0].args[1]) == 'gflags'
+    ctx.ob(R, 'make.flags_vars|default-is-pattern-specific', ok, f.node,
+           'the per-target flags variable is defined as {}: a plain global '
+           'lets a target\'s options leak into its prerequisites\' '
+           'recipes'.format(unparse(vals[0]) if vals else None))
+    w = repo.method(E.MAKE_SYN + ':Makefile', 'write')
+    ok = any(isinstance(n, ast.For) and unparse(n.iter) ==
+             'self._target_variables' and 'target=target' in unparse(n)
+             for n in ast.walk(w.node)) and "target = Pattern('%')" in \
+        unparse(w.node)
+    ctx.ob(R, 'Makefile.write|target-variables-under-%', ok, w.node,
+           'default target variables are not written as `%: NAME := ...`')
+    wr = repo.method(E.MAKE_SYN + ':Makefile', '_write_rule')
+    ok = 'self._write_variable(out, name, value, target=target)' in unparse(
+        wr.node) and 'for target in rule.targets' in unparse(wr.node)
+    ctx.ob(R, 'Makefile._write_rule|rule-variables-are-target-specific', ok,
+           wr.node, 'rule variables are not written per target')
+
+
 def check(ctx):
     ctx.rule('ESC-MAKE', 'for every site where Makefile/Writer emits script-'
              'derived text, every Syntax member that reaches the site escapes '
@@ -125,3 +173,7 @@ def check(ctx):
                       'bfg9000.builtins.find'], minimum=18)
     E.literal_origin(ctx)
     E.sh_safe(ctx, include_make_recipe=True)
+    target_var_scope(ctx)
+    from ..rules import graph as G
+    ctx.rule('ENV-EXPORT', 'command steps export their environment for every command of the step')
+    G.env_export(ctx, 'ENV-EXPORT', backends=('make',))
